@@ -12,6 +12,7 @@ CONSTANTS Comp = "hub_re"
   NBuf = 0
   Gaps <- G_none
   Strict = FALSE
+  Busy = FALSE
   D = 80
 INIT Init
 NEXT Next
